@@ -17,8 +17,8 @@
 //   end
 // One JSON line out per scenario: per check the callback answers (in order) and the log of leaf consultations.
 //
-// Leaf behaviour (mirrored by spec/acl/AclTreeImpl.tla LeafEval): a leaf tells its scripted truth value the first time it
-// has one to tell and the opposite ever after, so that a walker that consults a leaf again changes the decision.
+// Leaf behaviour (mirrored by spec/acl/AclTreeImpl.tla LeafEval): a leaf tells its scripted truth value whenever it has one
+// to tell; every consultation is logged, so a walker that consults a leaf again is visible in the log (I-layer).
 #include "squid.h"
 #include "acl/Acl.h"
 #include "acl/AllOf.h"
@@ -45,7 +45,6 @@ struct Script {
     std::map<std::string, bool> truth;
     std::map<std::string, char> mode;
     std::set<std::string> answered;   ///< leaf occurrences whose lookup has completed
-    std::set<std::string> served;     ///< leaf occurrences that have told their value once
     std::string pending;              ///< leaf occurrence whose lookup is outstanding
     std::vector<std::string> log;     ///< JSON items
     std::vector<std::string> answers; ///< callback answers
@@ -102,10 +101,7 @@ private:
                 return 0; // no lookup possible (fast check): mismatch, as real slow ACLs do
             // else: the lookup completed before goAsync() returned; the value is known now
         }
-        const bool tv = s->truth[base];
-        const bool v = s->served.count(me) ? !tv : tv;
-        s->served.insert(me);
-        return v ? 1 : 0;
+        return s->truth[base] ? 1 : 0;
     }
 };
 
